@@ -76,6 +76,9 @@ Format/Afm.vos Format/Afm.vok Format/Afm.required_vos: Format/Afm.v Base/Result.
 Format/Export.vo Format/Export.glob Format/Export.v.beautified Format/Export.required_vo: Format/Export.v Base/Result.vo Base/Str.vo Base/AstOp.vo Gen/Tables_core.vo Model/Ast.vo Model/FM.vo Model/Ctc.vo Model/Queries.vo Model/Sem.vo Format/Glencoe.vo Format/Xml.vo
 Format/Export.vio: Format/Export.v Base/Result.vio Base/Str.vio Base/AstOp.vio Gen/Tables_core.vio Model/Ast.vio Model/FM.vio Model/Ctc.vio Model/Queries.vio Model/Sem.vio Format/Glencoe.vio Format/Xml.vio
 Format/Export.vos Format/Export.vok Format/Export.required_vos: Format/Export.v Base/Result.vos Base/Str.vos Base/AstOp.vos Gen/Tables_core.vos Model/Ast.vos Model/FM.vos Model/Ctc.vos Model/Queries.vos Model/Sem.vos Format/Glencoe.vos Format/Xml.vos
+Format/Ref.vo Format/Ref.glob Format/Ref.v.beautified Format/Ref.required_vo: Format/Ref.v Base/Result.vo Base/Str.vo Base/AstOp.vo Model/Ast.vo Model/FM.vo Model/PFM.vo Format/Xml.vo
+Format/Ref.vio: Format/Ref.v Base/Result.vio Base/Str.vio Base/AstOp.vio Model/Ast.vio Model/FM.vio Model/PFM.vio Format/Xml.vio
+Format/Ref.vos Format/Ref.vok Format/Ref.required_vos: Format/Ref.v Base/Result.vos Base/Str.vos Base/AstOp.vos Model/Ast.vos Model/FM.vos Model/PFM.vos Format/Xml.vos
 Model/Metrics.vo Model/Metrics.glob Model/Metrics.v.beautified Model/Metrics.required_vo: Model/Metrics.v Base/Result.vo Base/Str.vo Base/PyFloat.vo Base/AstOp.vo Model/Ast.vo Model/FM.vo Model/Ctc.vo Model/Queries.vo Model/Ops.vo Model/EqHash.vo Gen/Tables_metrics.vo
 Model/Metrics.vio: Model/Metrics.v Base/Result.vio Base/Str.vio Base/PyFloat.vio Base/AstOp.vio Model/Ast.vio Model/FM.vio Model/Ctc.vio Model/Queries.vio Model/Ops.vio Model/EqHash.vio Gen/Tables_metrics.vio
 Model/Metrics.vos Model/Metrics.vok Model/Metrics.required_vos: Model/Metrics.v Base/Result.vos Base/Str.vos Base/PyFloat.vos Base/AstOp.vos Model/Ast.vos Model/FM.vos Model/Ctc.vos Model/Queries.vos Model/Ops.vos Model/EqHash.vos Gen/Tables_metrics.vos
